@@ -75,7 +75,7 @@ func checkC14(c c14Case) *core.Failure {
 		}
 	}
 	var wantCSR *xref.CSR
-	if c.CSRDER != nil {
+	if c.CSRDER != nil && c.KeyDER == nil {
 		wantCSR, _ = xref.ParseCSR(c.CSRDER)
 	}
 	verify := func(phase string, res core.RunResult) *core.Failure {
@@ -177,12 +177,15 @@ func TestC14(t *testing.T) {
 	r.Assumptions = []string{"a key on a curve gopki does not support is outside the property and not generated"}
 	wrap := func(c c14Case) *core.Failure {
 		nt := len(c.Steps) >= 2 && c.KeyAlg != "P-256" || c.Lead != "" || c.Trail != "" || c.CSRDER != nil
+		if c.CSRDER != nil && c.KeyDER != nil {
+			r.Classes["key-plus-stale-request"]++
+		}
 		key := ""
 		if nt {
 			key = fmt.Sprintf("%s %s %x %v %q %q", c.Target, c.KeyAlg, c.KeyDER, c.Steps, c.Lead, c.Trail)
 		}
 		cls := []string{"target:" + c.Target, "alg:" + c.KeyAlg, fmt.Sprintf("steps:%d", len(c.Steps))}
-		if c.CSRDER != nil {
+		if c.CSRDER != nil && c.KeyDER == nil {
 			cls = append(cls, "request-based")
 		}
 		for _, s := range c.Steps {
@@ -243,6 +246,10 @@ func TestC14(t *testing.T) {
 				}
 			}
 			c.WithCert = rapid.Bool().Draw(t, "withcert")
+			if rapid.IntRange(0, 4).Draw(t, "stale-request") == 0 {
+				// a request (for some other key) left beside the private key: the key still rules
+				_, c.CSRDER = goCertAndCSR(t)
+			}
 			switch rapid.IntRange(0, 3).Draw(t, "cfgalg") {
 			case 0:
 				c.CfgAlg = "" // config silent about the algorithm
